@@ -288,8 +288,8 @@ type effects struct {
 // snapshot: what a reading of the index must contain (req) and may contain (alw).
 type snapshot struct {
 	req     map[string]uint64 // series key -> id
-	alw     map[string]bool // live, added by operations in flight, or lingering
-	strict  map[string]bool // live or added by operations in flight (what the exact series-id set may hold)
+	alw     map[string]bool   // live, added by operations in flight, or lingering
+	strict  map[string]bool   // live or added by operations in flight (what the exact series-id set may hold)
 	reqMeas map[string]bool
 	alwMeas map[string]bool
 }
@@ -302,17 +302,17 @@ type image struct {
 }
 
 type world struct {
-	r        *hx.Run
-	root     string
-	sf       *tsdb.SeriesFile
-	idx      *tsi1.Index
-	fset     *tsdb.MeasurementFieldSet
-	maxLog   int64
-	maxAge   time.Duration
-	cache    int
-	partN    uint64
-	live     map[string]uint64 // series key -> id
-	linger   map[string]bool   // dropped from the index but alive in the series file (as when another shard still has the
+	r      *hx.Run
+	root   string
+	sf     *tsdb.SeriesFile
+	idx    *tsi1.Index
+	fset   *tsdb.MeasurementFieldSet
+	maxLog int64
+	maxAge time.Duration
+	cache  int
+	partN  uint64
+	live   map[string]uint64 // series key -> id
+	linger map[string]bool   // dropped from the index but alive in the series file (as when another shard still has the
 	// series): tsi1 applies series tombstones of newer files only partly when reading, tsdb.IndexSet filters by the
 	// series file instead — such series may stay listed
 	meas     map[string]bool
@@ -701,7 +701,9 @@ func (w *world) checkSet(kind, what string, got map[string]uint64, sn *snapshot,
 			alw = sn.strict
 		}
 		if d := domain[k]; d == nil || !alw[k] || !sel(d) {
-			if d != nil && sel(d) && sn.alw[k] {
+			if kind == "series-id-set" && w.rawDropped[k] {
+				hint = ":after-direct-measurement-drop"
+			} else if d != nil && sel(d) && sn.alw[k] {
 				hint = ":dropped-series-still-in-existence-set"
 			}
 			if kind == "tagvalue-series" && w.cacheSuspect[k] {
@@ -1067,7 +1069,10 @@ func (w *world) recover(im image) {
 			r.Violate("C14:reopen-error", "reopen-after-crash:"+im.kind, "index does not open after crash at [%s]: %v", im.ev, err)
 			return
 		}
-		defer func() { w2.close() }()
+		defer func() {
+			w2.close()
+			simrt.Sleep(time.Millisecond, 0) // let worker goroutines of the last index calls run to their end inside this simulation
+		}()
 		when := "after-crash:" + im.kind
 		before := len(r.Viol)
 		if ok := w2.compare(im.sn, when); !ok {
@@ -1244,6 +1249,7 @@ func exec(r *hx.Run, prog []json.RawMessage) {
 		fs.Hook = nil
 		if !r.Aborted {
 			w.close()
+			simrt.Sleep(time.Millisecond, 0) // let worker goroutines of the last index calls run to their end inside this simulation
 		}
 	})
 	simfs.Activate(nil)
